@@ -211,3 +211,35 @@ C08 = wire_check("C08", "C08", "model_checking",
 C16 = wire_check("C16", "C16", "model_checking",
     rule="every keyed root collection x 4 batch methods x every key multiset up to the size bound over an adversarial key pool (FNV-1a-colliding strings found by deterministic search, complex keys equal up to params, keys differing only in escaping-relevant characters, empty string, reserved characters) x scripted replies (rotating assignment of keys to {results, statuses, errors}; all 8^3 assignments and a never-requested key in each map for a base key set), through generated client -> wire -> server -> mock; checked: duplicates rejected before anything is sent, ids on the wire list each encoded key exactly once in ascending order, every response entry is filed under the caller's own key value (pointer identity for complex keys), nothing lost / duplicated / misattributed, an unrequested key yields an error; states = (resource, method), transitions = calls",
     assumptions=["bytes-keyed collections are absent: the generator's output for them does not compile (recorded under C12)"])
+
+
+def C07(sc, tier, replay, t0):
+    """C07 = codec-level exclusion exactness (codec harness) + wire-level annotated resources (wire harness)."""
+    reports = []
+    gens = ["v2", "root"]
+    rp = None
+    if replay:
+        rp = json.load(open(replay)).get("replay") or {}
+        gens = [rp.get("gen", "v2")]
+    for gen in gens:
+        if not rp or rp.get("part") == "C07":
+            uni = "codec-full" if tier == "thorough" else "codec-quick"
+            binary = D.build_with_bindings(sc, gen, "codec", uni)
+            env = {"VERIF_UNIVERSE": uni}
+            if rp:
+                return subprocess.run([binary, "-gen", gen, "-replay", replay], env=dict(D.goenv(), **env)).returncode
+            reports += D.run_shards(binary, gen, tier, max(1, D.NCPU // 2), os.path.join(sc.dir, "out"), extra_args=["-part", "C07"], env=env,
+                                    deadline=(3000 if tier == "thorough" else 600), tag="-codec")
+        if not rp or rp.get("part") == "C07W":
+            uni = "resources-full" if tier == "thorough" else "resources-quick"
+            binary = D.build_with_bindings(sc, gen, "wire", uni, resources=True)
+            env = {"VERIF_UNIVERSE": uni}
+            if rp:
+                return subprocess.run([binary, "-gen", gen, "-replay", replay], env=dict(D.goenv(), **env)).returncode
+            reports += D.run_shards(binary, gen, tier, 1, os.path.join(sc.dir, "out"), extra_args=["-part", "C07W"], env=env, deadline=600, tag="-wire")
+    merged = D.merge_reports(reports)
+    return D.finish("C07", tier, "model_checking", merged, t0,
+        rule="(codec) for 9 nested schemas every exclusion spec of one path and every pair of paths over the candidate paths (every value path of the fully populated value to depth 4, plus one segment replaced by the wildcard or an absent name) is given to the JSON and ROR2 writers (output must denote the value minus exactly the matching sub-trees) and to the JSON, ROR2 and untyped readers at leading-scope offsets 0-3 (ExcludedFieldError iff the document carries a value at a matching path; excluded required fields not reported missing); (wire) the annotated resource (read-only / create-only fields at top level, nested, under array and map wildcards) x create, batch_create, update, batch_update, partial_update, batch_partial_update: bodies on the wire, client-side refusal before sending, server 400 without invoking the resource for raw bodies carrying excluded fields; states = specs, transitions = encode/decode calls or exchanges",
+        assumptions=CODEC_ASSUME + ["the wildcard matches any one path segment (array items, map keys and field names alike)",
+                                    "specs ending in the array wildcard are included; whether an excluded array item disappears or is emptied is judged by the pruned reference value (items keep their place, emptied)"],
+        trusted_base=MC_ASSUME + CODEC_TRUST + WIRE_TRUST)
